@@ -883,7 +883,11 @@ func c17AfterErrors(r *Run) {
 					if flt == nil {
 						flt, _ = bexpr.CreateFilter(e)
 					}
-					got, err := flt.Execute(good)
+					got, err, pan := safeExecute(flt, good)
+					if pan != "" {
+						r.Violate("execute-panics", fmt.Sprintf("after-error|%d|%s", n, e), map[string]interface{}{"expression": e, "input": fmt.Sprintf("%d maps with X = i mod 3, after an Execute that failed", n)}, "Execute panicked: "+pan)
+						continue
+					}
 					r.Evaluations++
 					r.Seen(fmt.Sprintf("after-error|%d|%s|%d|%d", n, e, k, which))
 					c := map[string]interface{}{"expression": e, "first_input": fmt.Sprintf("%d elements, the last one makes the expression fail (%T)", reflect.ValueOf(b).Len(), b), "first_result": truncate(o1, 60), "second_input": fmt.Sprintf("%d maps with X = i mod 3", n)}
@@ -900,8 +904,10 @@ func c17AfterErrors(r *Run) {
 		if f, err := bexpr.CreateFilter("M.k == 1 or A == 1"); err == nil {
 			badS[n-1].M = map[string]int{"k": 1}
 			executeWith(f, badS)
-			got, err := f.Execute(goodS)
-			if err == nil {
+			got, err, pan := safeExecute(f, goodS)
+			if pan != "" {
+				r.Violate("execute-panics", fmt.Sprintf("after-struct|%d", n), map[string]interface{}{"expression": "M.k == 1 or A == 1", "n": n}, "Execute panicked: "+pan)
+			} else if err == nil {
 				checkFilterCoherence(r, "M.k == 1 or A == 1", fmt.Sprintf("after-struct-%d", n), goodS, got, executeObsOf(got), map[string]interface{}{"expression": "M.k == 1 or A == 1", "n": n})
 			}
 		}
@@ -929,4 +935,15 @@ func executeObsOf(got interface{}) string {
 		return fmt.Sprintf("(map %s %s)", cType(rv.Type()), inner)
 	}
 	return "OTHER:" + rv.Kind().String()
+}
+
+// safeExecute is Execute under recover: a panic is reported to the caller as text.
+func safeExecute(f *bexpr.Filter, data interface{}) (res interface{}, err error, panicked string) {
+	defer func() {
+		if p := recover(); p != nil {
+			res, err, panicked = nil, nil, fmt.Sprint(p)
+		}
+	}()
+	res, err = f.Execute(data)
+	return
 }
